@@ -39,7 +39,7 @@ KF_C05_refuse(step) == IF step.op.op = "SetTime" THEN "KF-C05-settime-replace" E
 (* its document (or adopts the document's default namespace).  Content unchanged.  *)
 InheritedNsOnly(step, c) ==
   LET P == step.parents[c] IN
-  /\ P # "" /\ c \in DOMAIN step.post.con
+  /\ P # "" /\ c \in DOMAIN step.post.con /\ P \in DOMAIN step.pre.ns /\ c \in DOMAIN step.pre.ns
   /\ step.post.con[c] = step.pre.con[c]
   /\ step.post.ns[c] # step.pre.ns[c]
   /\ SeqToSet(step.pre.ns[c].reg) \subseteq SeqToSet(step.post.ns[c].reg)
